@@ -554,3 +554,411 @@ def from_units_cyclic_exhaustive(w, cfg):
              'product; 120 (quick) / 1500 (thorough) flowsheets x identity, reverse and 6 / 12 seeded permutations')
 def from_units_cyclic_random(w, cfg):
     check_flowsheet(w, cfg)
+
+
+# =========================================================================== Network.sort, mode S
+# The reachability answers of PathSource.downstream_from come from a SYMBOLIC relation R over the path items
+# (R[i][j]: item i reaches item j; one sign leaf per ordered pair), required to be a strict partial order.
+# The real Network.sort runs on it; every comparison forks, so the explorer enumerates exactly the partial orders
+# that sort can tell apart, and each clause is discharged for all relations compatible with the path.
+
+def sort_sym_configs(tier):
+    return [{'name': f'N={n}', 'n': n} for n in ((1, 2, 3, 4) if tier == 'quick' else (1, 2, 3, 4, 5))]
+
+
+def _plain_units(n):
+    return [unit_class(1, 1)(f'.I{k}', ins=(), outs=()) for k in range(n)]
+
+
+@group('C19/sort_partial_orders', configs=sort_sym_configs,
+       functions=['thermosteam.network:Network.sort'],
+       assumptions=['PathSource.downstream_from(a, b) answers "b reaches a" for a relation that is a strict partial order '
+                    '(its implementation on real flowsheets is checked in C19/reachability and C19/sort_flowsheets, mode B)'])
+def sort_partial_orders(w, cfg):
+    n = cfg['n']
+    items = _plain_units(n)
+    idx = {u: k for k, u in enumerate(items)}
+    r = {(i, j): w.real(f'r{i}{j}') for i in range(n) for j in range(n) if i != j}
+    R = lambda i, j: w.gt(r[i, j], 0)
+    for i in range(n):
+        for j in range(n):
+            if i == j: continue
+            if i < j: w.assume(w.Not(w.And(R(i, j), R(j, i))))                    # antisymmetric
+            for k in range(n):
+                if k != i and k != j: w.assume(w.Implies(w.And(R(i, j), R(j, k)), R(i, k)))   # transitive
+
+    class StubPathSource:
+        __slots__ = ('source', 'units')
+
+        def __init__(self, source, ends=None):
+            self.source = source
+            self.units = None
+
+        def downstream_from(self, other):          # "self.source in other.units": other reaches self
+            return r[idx[other.source], idx[self.source]] > 0
+
+    net = nw.Network(list(items))
+    units_before = set(net.units)
+    real = nw.PathSource
+    nw.PathSource = StubPathSource
+    try:
+        with warnings.catch_warnings(record=True) as caught:
+            warnings.simplefilter('always')
+            net.sort(set())
+    finally:
+        nw.PathSource = real
+    path = net.path
+    w.ensure('result is a permutation of the items', sorted(idx.get(u, -1) for u in path) == list(range(n)))
+    pos = {idx[u]: p for p, u in enumerate(path) if u in idx}
+    for i in range(n):
+        for j in range(n):
+            if i != j and i in pos and j in pos:
+                w.ensure(f'item {i} reaches item {j} -> {i} comes before {j}', w.Implies(R(i, j), pos[i] < pos[j]))
+    w.ensure('the loop ends with stop true (no "path could not be determined" warning)',
+             not any('could not be determined' in str(c.message) for c in caught))
+    w.ensure('no recycle is added', net.recycle is None)
+    w.ensure('frame: Network.units unchanged', net.units == units_before)
+    if n >= 2 and 0 in pos and 1 in pos:
+        w.canary('canary: item 0 reaches item 1 -> 1 comes before 0', w.Implies(R(0, 1), pos[1] < pos[0]))
+    else:
+        w.canary('canary: a single item is moved', False)
+    w.note(order=[idx.get(u) for u in path])
+
+
+# =========================================================================== Network.sort on real flowsheets, mode B
+
+def loose_spec(n, edges):
+    """Ports for an arbitrary digraph (no port limit): one outlet per out-edge, one inlet per in-edge, in edge order;
+    a feed / product where a unit has none."""
+    outs = [[] for _ in range(n)]; ins = [[] for _ in range(n)]
+    for k, (a, b) in enumerate(edges):
+        outs[a].append(k); ins[b].append(k)
+    for side in (outs, ins):
+        for s in side:
+            if not s: s.append(None)
+    return {'ins': [len(s) for s in ins], 'outs': [len(s) for s in outs],
+            'edges': [[a, outs[a].index(k), b, ins[b].index(k)] for k, (a, b) in enumerate(edges)]}
+
+
+def digraph_configs(nmax, self_loops=False):
+    out = []
+    for n in range(1, nmax + 1):
+        pairs = [(i, j) for i in range(n) for j in range(n) if i != j or self_loops]
+        for mask in range(1 << len(pairs)):
+            edges = [p for k, p in enumerate(pairs) if mask >> k & 1]
+            out.append({'name': f'n={n};edges={mask:0{max(1, len(pairs))}b}', 'n': n, 'edges': [list(e) for e in edges]})
+    return out
+
+
+def sort_flowsheet_configs(tier):
+    return digraph_configs(3 if tier == 'quick' else 4)
+
+
+def _item_reach(groups, reach):
+    """Item-level reachability: X reaches Y iff some unit of X reaches some unit of Y (X != Y)."""
+    m = len(groups)
+    return {x: {y for y in range(m) if y != x and any(b in reach[a] for a in groups[x] for b in groups[y])} for x in range(m)}
+
+
+@group('C19/sort_flowsheets', configs=sort_flowsheet_configs, mode='B',
+       functions=['thermosteam.network:Network.sort', 'thermosteam.network:PathSource.__init__',
+                  'thermosteam.network:PathSource.downstream_from', 'thermosteam.network:Network.add_recycle'],
+       notes='Network.sort with the real PathSource on ALL labelled digraphs without self-loops on 1-3 (quick) / 1-4 '
+             '(thorough) units (= every initial order of every flowsheet), x ends in {nothing, every stream against a '
+             'hidden ranking (all n! rankings) so that the rest is acyclic}, x items = units or the first two units '
+             'grouped into a sub-network')
+def sort_flowsheets(w, cfg):
+    n = cfg['n']; edges = [tuple(e) for e in cfg['edges']]
+    spec = loose_spec(n, edges)
+    tally = Tally()
+    ncanary = [0, 0]
+    cuts = [None] + [list(p) for p in itertools.permutations(range(n))]
+    for rank in cuts:
+        for grouped in ((False, True) if n >= 3 else (False,)):
+            units = build(spec)
+            index = {u: k for k, u in enumerate(units)}
+            cut = [] if rank is None else [e for e in spec['edges'] if rank[e[0]] >= rank[e[2]]]
+            ends = {units[e[0]].outs[e[1]] for e in cut}
+            ends_before = set(ends)
+            kept = [(e[0], e[2]) for e in spec['edges'] if e not in cut]
+            succ = {u: set() for u in range(n)}
+            for a, b in kept: succ[a].add(b)
+            reach = _reach(succ)
+            if grouped:
+                sub = nw.Network([units[0], units[1]])
+                items = [sub] + units[2:]
+                groups = [[0, 1]] + [[k] for k in range(2, n)]
+            else:
+                sub = None
+                items = list(units)
+                groups = [[k] for k in range(n)]
+            ireach = _item_reach(groups, reach)
+            acyclic = not any(x in ireach[y] for x in ireach for y in ireach[x]) and not any(u in reach[u] for u in reach)
+            net = nw.Network(list(items))
+            before = connections(units)
+            info = {'ends_rank': rank, 'grouped': grouped}
+            try:
+                with warnings.catch_warnings(record=True) as caught:
+                    warnings.simplefilter('always')
+                    net.sort(ends)
+            except Exception as e:
+                tally.check('no-unexpected-exception', False, exception=f'{type(e).__name__}: {e}', **info)
+                continue
+            tally.check('no-unexpected-exception', True)
+            warned = any('could not be determined' in str(c.message) for c in caught)
+            path = net.path
+            info['result'] = show(net, index)
+            tally.check('result is a permutation of the items',
+                        len(path) == len(items) and all(any(p is i for p in path) for i in items), **info)
+            tally.check('flattened path contains every unit exactly once', sorted(index.get(u, -1) for u in flatten(net)) == list(range(n)), **info)
+            ipos = {k: next((p for p, x in enumerate(path) if x is i), None) for k, i in enumerate(items)}
+            if None in ipos.values():
+                continue
+            against = [(x, y) for x in ireach for y in ireach[x] if ipos[x] > ipos[y]]     # x reaches y but comes later
+            if acyclic:
+                tally.check('acyclic: every item comes after all items that reach it', not against, against=against, **info)
+                tally.check('acyclic: no recycle is added', not any_recycle_attribute(net), **info)
+                tally.check('acyclic: the loop ends with stop true (no warning)', not warned, **info)
+                if sub is not None:
+                    a, b = flatten(sub) if len(flatten(sub)) == 2 else (None, None)
+                    tally.check('acyclic: the sub-network is sorted as well',
+                                a is not None and not (index[a] in reach[index[b]]), **info)
+                if any(ireach.values()):
+                    ncanary[1] += 1
+                    if any(ipos[x] < ipos[y] for x in ireach for y in ireach[x]): ncanary[0] += 1
+            else:
+                # items that stay against the flow are mutually reachable (inside one loop) ...
+                bad = [(x, y) for x, y in against if x not in ireach[y]]
+                # ... as long as sort did not give up
+                tally.check('cyclic: an item stays before one that reaches it only if both reach each other, or sort warns',
+                            not bad or warned, not_mutual=bad, **info)
+            tally.check('frame: flowsheet connections unchanged', connections(units) == before, **info)
+            tally.check('frame: ends unchanged', ends == ends_before, **info)
+    tally.emit(w)
+    if ncanary[1]:
+        w.ensure('canary refuted: "the sorted order is against the flow" is rejected in every acyclic run with a reaching pair',
+                 ncanary[0] == ncanary[1])
+    w.canary('canary: the sorted order is against the flow', ncanary[0] == 0)
+    w.note(spec=spec)
+
+
+# =========================================================================== reachability closures, mode B
+
+def reach_configs(tier):
+    out = digraph_configs(3, self_loops=True) if tier == 'quick' else digraph_configs(3, self_loops=True) + [
+        dict(c, name='noloops;' + c['name']) for c in digraph_configs(4) if c['n'] == 4]
+    return out
+
+
+@group('C19/reachability', configs=reach_configs, mode='B',
+       functions=['thermosteam.network:AbstractUnit.get_downstream_units', 'thermosteam.network:AbstractUnit.get_upstream_units',
+                  'thermosteam.network:AbstractUnit._add_downstream_neighbors_to_set',
+                  'thermosteam.network:AbstractUnit._add_upstream_neighbors_to_set',
+                  'thermosteam.network:AbstractUnit.get_recycle_units', 'thermosteam.network:PathSource.__init__'],
+       notes='ALL labelled digraphs on 1-3 units including self-loops (quick) + all on 4 units without self-loops '
+             '(thorough); every start unit; ends in {None, empty, each single stream, all streams against the labelling}; '
+             'fresh result set and a result set pre-seeded with the closure of another unit; one unit optionally universal')
+def reachability(w, cfg):
+    n = cfg['n']; edges = [tuple(e) for e in cfg['edges']]
+    spec = loose_spec(n, edges)
+    tally = Tally()
+    cut_sets = [None, []] + [[e] for e in spec['edges']] + [[e for e in spec['edges'] if e[0] >= e[2]]]
+    wrong = [0, 0]
+    for cut in cut_sets:
+        for universal_unit in (None, 0):
+            units = build(spec)
+            if universal_unit is not None:
+                units[universal_unit]._universal = True       # instance attribute shadows the class flag
+            ends = None if cut is None else {units[e[0]].outs[e[1]] for e in cut}
+            ends_before = None if ends is None else set(ends)
+            kept = [(e[0], e[2]) for e in spec['edges'] if not (cut and e in cut)]
+            before = connections(units)
+            for universal in (True, False):
+                skip = universal_unit if not universal else None
+                succ = {u: set() for u in range(n)}; pred = {u: set() for u in range(n)}
+                for a, b in kept:
+                    if b != skip: succ[a].add(b)
+                    if a != skip: pred[b].add(a)
+                # a universal unit is not entered when universal=False: nothing is reached through it either
+                def closure(nb, start):
+                    seen = set(); todo = list(nb[start])
+                    while todo:
+                        v = todo.pop()
+                        if v not in seen:
+                            seen.add(v)
+                            todo.extend(nb[v])
+                    return seen
+                info = {'cut': cut, 'universal_unit': universal_unit, 'universal': universal}
+                for k, u in enumerate(units):
+                    down = u.get_downstream_units(ends=ends, universal=universal)
+                    up = u.get_upstream_units(ends=ends, universal=universal)
+                    exp_d = closure(succ, k); exp_u = closure(pred, k)
+                    tally.check('get_downstream_units = units reachable through >= 1 stream not in ends',
+                                {units.index(x) for x in down} == exp_d, unit=k, got=sorted(units.index(x) for x in down), expected=sorted(exp_d), **info)
+                    tally.check('get_upstream_units = units that reach it through >= 1 stream not in ends',
+                                {units.index(x) for x in up} == exp_u, unit=k, got=sorted(units.index(x) for x in up), expected=sorted(exp_u), **info)
+                    wrong[1] += 1
+                    if {units.index(x) for x in down} != exp_d | {k}: wrong[0] += 1
+                    # seeded with the (closed) result of another unit: the union of both closures, same set object
+                    for k2, u2 in enumerate(units):
+                        seed = u2.get_downstream_units(ends=ends, universal=universal)
+                        got = u.get_downstream_units(ends=ends, universal=universal, downstream_units=seed)
+                        tally.check('seeded get_downstream_units returns the seed object holding the union of both closures',
+                                    got is seed and {units.index(x) for x in got} == exp_d | closure(succ, k2),
+                                    unit=k, seed_of=k2, got=sorted(units.index(x) for x in got), **info)
+                        seed = u2.get_upstream_units(ends=ends, universal=universal)
+                        got = u.get_upstream_units(ends=ends, universal=universal, upstream_units=seed)
+                        tally.check('seeded get_upstream_units returns the seed object holding the union of both closures',
+                                    got is seed and {units.index(x) for x in got} == exp_u | closure(pred, k2),
+                                    unit=k, seed_of=k2, got=sorted(units.index(x) for x in got), **info)
+                    if cut is None and universal_unit is None and not universal:
+                        rec = u.get_recycle_units()
+                        tally.check('get_recycle_units = units on a common cycle with the unit',
+                                    {units.index(x) for x in rec} == exp_d & exp_u, unit=k, **info)
+            tally.check('frame: flowsheet connections unchanged', connections(units) == before, **info)
+            tally.check('frame: ends unchanged', ends == ends_before, **info)
+    tally.emit(w)
+    w.ensure('canary refuted: "the unit itself is always downstream of itself" is rejected', wrong[0] > 0 or all(
+        k in _reach({u: {b for a, b in edges if a == u} for u in range(n)})[k] for k in range(n)))
+    w.canary('canary: the unit itself is always in its downstream set', wrong[0] == 0)
+    w.note(spec=spec)
+
+
+# =========================================================================== local path surgery of Network, mode B
+# shape = {'p': [unit number | shape, ...], 'r': 0 | 1 | 2}   (r: no recycle / one stream / a set of two streams)
+
+def _mk_network(shape, units, streams):
+    path = [(_mk_network(i, units, streams) if isinstance(i, dict) else units[i]) for i in shape['p']]
+    r = shape.get('r', 0)
+    rec = None if r == 0 else (streams.pop() if r == 1 else {streams.pop(), streams.pop()})
+    return nw.Network(path, rec)
+
+
+def _picture(net, index):
+    """Structure of a network with identities resolved to unit numbers and recycle streams to their ids."""
+    r = net.recycle
+    rr = None if r is None else (('s', id(r)) if hasattr(r, 'sink') else ('set', tuple(sorted(map(id, r)))))
+    return ([(_picture(i, index) if isinstance(i, nw.Network) else index[i]) for i in net.path], rr)
+
+
+def _recycle_ids(net, out=None):
+    if out is None: out = set()
+    r = net.recycle
+    if r is not None:
+        out.update([id(r)] if hasattr(r, 'sink') else map(id, r))
+    for i in net.path:
+        if isinstance(i, nw.Network): _recycle_ids(i, out)
+    return out
+
+
+def surgery_configs(tier):
+    selfs = [{'p': [0, 1, 2]}, {'p': [0, 1, 2], 'r': 1}, {'p': [0, {'p': [1, 2], 'r': 1}, 3]}, {'p': [0, {'p': [1, 2], 'r': 2}, 3], 'r': 1},
+             {'p': []}, {'p': [{'p': [0, 1], 'r': 1}]}]
+    others = [{'p': [4, 5]}, {'p': [4, 5], 'r': 1}, {'p': [1, 4]}, {'p': [2, 4, 0], 'r': 2}, {'p': [4, {'p': [5, 1], 'r': 1}]}, {'p': []}]
+    out = []
+    for si, s in enumerate(selfs):
+        for oi, o in enumerate(others):
+            for op in ('_insert_linear_network', '_append_linear_network', '_append_recycle_network', '_append_network', '_remove_overlap'):
+                idxs = range(len(s['p']) + 1) if op == '_insert_linear_network' else [None]
+                for k in idxs:
+                    out.append({'name': f'{op};self={si};other={oi};index={k}', 'op': op, 'self': s, 'other': o, 'index': k})
+    recs = ['none', 's1', '{s1}', '{s1,s2}']
+    args = ['none', 's1', 's3', '{s1}', '{s3}', '{s2,s3}', '{}']
+    for r in recs:
+        for a in args:
+            out.append({'name': f'add_recycle;recycle={r};arg={a}', 'op': 'add_recycle', 'recycle': r, 'arg': a})
+    for si, s in enumerate(selfs):
+        out.append({'name': f'get_all_recycles;self={si}', 'op': 'get_all_recycles', 'self': s})
+    return out
+
+
+@group('C19/path_surgery', configs=surgery_configs, mode='B',
+       functions=['thermosteam.network:Network.add_recycle', 'thermosteam.network:Network.get_all_recycles',
+                  'thermosteam.network:Network._remove_overlap', 'thermosteam.network:Network._insert_linear_network',
+                  'thermosteam.network:Network._append_linear_network', 'thermosteam.network:Network._append_recycle_network',
+                  'thermosteam.network:Network._append_network', 'thermosteam.network:Network.__init__'],
+       notes='6 receiver shapes (flat / nested / empty, with and without recycle) x 6 argument networks (disjoint, overlapping, '
+             'nested, empty) x every insertion index; add_recycle: 4 receiver states x 7 arguments (None, stream, same stream, sets)')
+def path_surgery(w, cfg):
+    units = _plain_units(6)
+    index = {u: k for k, u in enumerate(units)}
+    streams = [u.outs[0] for u in units] + [u.ins[0] for u in units]
+    op = cfg['op']
+    if op == 'add_recycle':
+        s1, s2, s3 = streams[:3]
+        mk = {'none': lambda: None, 's1': lambda: s1, 's3': lambda: s3, '{s1}': lambda: {s1}, '{s3}': lambda: {s3},
+              '{s1,s2}': lambda: {s1, s2}, '{s2,s3}': lambda: {s2, s3}, '{}': lambda: set()}
+        net = nw.Network([units[0], units[1]], mk[cfg['recycle']]())
+        arg = mk[cfg['arg']]()
+        view = lambda r: set() if r is None else ({id(r)} if hasattr(r, 'sink') else set(map(id, r)))
+        before = view(net.recycle); argv = view(arg); path_before = list(net.path); units_before = set(net.units)
+        net.add_recycle(arg)
+        w.ensure('recycles after = recycles before U argument', view(net.recycle) == before | argv, got=len(view(net.recycle)))
+        w.ensure('get_all_recycles agrees with the recycle attribute', set(map(id, net.get_all_recycles())) == before | argv)
+        w.ensure('frame: path and units unchanged', net.path == path_before and net.units == units_before)
+        w.ensure('frame: the argument is not modified', view(arg) == argv)
+        w.canary('canary: add_recycle replaces the old recycle', view(net.recycle) == argv)
+        return
+    pool = list(streams)
+    net = _mk_network(cfg['self'], units, pool)
+    if op == 'get_all_recycles':
+        expect = _recycle_ids(net)
+        pic = _picture(net, index)
+        got = net.get_all_recycles()
+        w.ensure('get_all_recycles = union over all nested networks', set(map(id, got)) == expect)
+        seed = {streams[-1]}
+        got2 = net.get_all_recycles(seed)
+        w.ensure('seeded: same set object, seed kept', got2 is seed and set(map(id, got2)) == expect | {id(streams[-1])})
+        w.ensure('frame: network unchanged', _picture(net, index) == pic)
+        w.canary('canary: only the top-level recycle is reported', set(map(id, got)) == _recycle_ids(nw.Network([], net.recycle)))
+        return
+    other = _mk_network(cfg['other'], units, pool)
+    flat0 = [index[u] for u in flatten(net)]; oflat = [index[u] for u in flatten(other)]
+    path0 = list(net.path); units0 = set(net.units); rec0 = _recycle_ids(net)
+    opic = _picture(other, index); ounits = set(other.units); orec = _recycle_ids(other)
+    if op == '_insert_linear_network':
+        k = cfg['index']
+        net._insert_linear_network(k, other)
+        w.ensure('path = path[:index] + network.path + path[index:]', net.path == path0[:k] + other.path + path0[k:])
+        w.ensure('units = units U network.units', net.units == units0 | ounits)
+    elif op == '_append_linear_network':
+        net._append_linear_network(other)
+        w.ensure('path = path + network.path', net.path == path0 + other.path)
+        w.ensure('units = units U network.units', net.units == units0 | ounits)
+    elif op == '_append_recycle_network':
+        net._append_recycle_network(other)
+        w.ensure('path = path + [network]', len(net.path) == len(path0) + 1 and net.path[:-1] == path0 and net.path[-1] is other)
+        w.ensure('units = units U network.units', net.units == units0 | ounits)
+    elif op == '_append_network':
+        net._append_network(other)
+        w.ensure('units = units U network.units', net.units == units0 | ounits)
+        w.ensure('all recycles = recycles of both', _recycle_ids(net) == rec0 | orec)
+        if rec0 and cfg['self'].get('r'):
+            w.ensure('a network with a recycle is wrapped: the loop stays closed around its own units only',
+                     net.recycle is None and isinstance(net.path[0], nw.Network) and net.path[0].path == path0)
+    elif op == '_remove_overlap':
+        net._remove_overlap(other, tuple(path0))
+        w.ensure('path = the items that are sub-networks or not units of the other network, in order',
+                 net.path == [i for i in path0 if isinstance(i, nw.Network) or i not in ounits])
+        w.ensure('frame: units attribute unchanged', net.units == units0)
+    if op != '_remove_overlap':
+        w.ensure('no unit lost or duplicated: flattened path = old flattened path + flattened network (as multisets)',
+                 sorted(index[u] for u in flatten(net)) == sorted(flat0 + oflat))
+        w.ensure('relative order of the old items and of the new items is kept',
+                 _is_interleaving([index[u] for u in flatten(net)], flat0, oflat))
+    w.ensure('frame: the argument network is unchanged', _picture(other, index) == opic and other.units == ounits)
+    w.canary('canary: the receiver path is unchanged', net.path == path0)
+
+
+def _is_interleaving(z, x, y):
+    """z is an interleaving of the sequences x and y (both keep their order)."""
+    if len(z) != len(x) + len(y): return False
+    ok = {(0, 0)}
+    for k, v in enumerate(z):
+        nxt = set()
+        for i, j in ok:
+            if i < len(x) and x[i] == v: nxt.add((i + 1, j))
+            if j < len(y) and y[j] == v: nxt.add((i, j + 1))
+        ok = nxt
+        if not ok: return False
+    return (len(x), len(y)) in ok
